@@ -1272,6 +1272,7 @@ class FortranFile:
         if self.fixed:
             if FRegex.FIXED_COMMENT.match(line) and not FRegex.FIXED_OPENMP.match(line):
                 return ""
+            line = self._cut_fixed_comment(line)
         else:
             if FRegex.FREE_OPENMP.match(line) is None:
                 # A "!" inside a character literal does not start a comment
